@@ -32,6 +32,67 @@ def expect_in_order(name, body, pats):
     return b
 
 
+def iface(repo, w):
+    """src/cache_interface.cpp: constants and statement-order shape of the trigger-recording layer (Iface.lean)"""
+    src = strip_c_comments(open(os.path.join(repo, "src/cache_interface.cpp")).read())
+    m = re.search(r"const\s+time_t\s+infty\s*=\s*\(sizeof\(time_t\)==4\s*\?\s*0x7FFFFFFF\s*:\s*(0x[0-9A-Fa-f]+)ULL\s*\)\s*-\s*([0-9*\s]+);", src)
+    if not m:
+        raise Untranslatable("cache_interface: infty")
+    w("\n/-- `infty` of cache_interface.cpp (64-bit time_t): deadline used for timeout < 0 -/")
+    w(f"def ifaceInfty : Int := {int(m.group(1), 16)} - ({c_to_lean(m.group(2).strip())})")
+    body = function_body(src, r"time_t\s+deadtime\s*\(\s*int\s+sec\s*\)\s*\{")
+    expect_in_order("deadtime", body, [r"^if\(sec<0\)returninfty;else\{time_ttmp;time\(&tmp\);", r"if\(tmp\+sec<tmp\)\{throw", r"returntmp\+sec;\}$"])
+    body = function_body(src, r"void\s+cache_interface::add_trigger\s*\(")
+    expect_in_order("cache_interface::add_trigger", body, [
+        r"^if\(nocache\(\)\)return;",
+        r"for\(std::set<triggers_recorder\*>::iteratorp=recorders_\.begin\(\);p!=recorders_\.end\(\);\+\+p\)\(\*p\)->add\(t\);",
+        r"triggers_\.insert\(t\);$"])
+    body = function_body(src, r"void\s+triggers_recorder::add\s*\(")
+    expect_in_order("triggers_recorder::add", body, [r"^triggers_\.insert\(t\);$"])
+    body = function_body(src, r"triggers_recorder::triggers_recorder\s*\(\s*cache_interface\s*&\s*cache\s*\)\s*:\s*cache_\(&cache\)\s*\{")
+    expect_in_order("triggers_recorder ctor", body, [r"^cache_->add_triggers_recorder\(this\);$"])
+    body = function_body(src, r"std::set<std::string>\s+triggers_recorder::detach\s*\(")
+    expect_in_order("triggers_recorder::detach", body, [r"^if\(cache_\)\{cache_->remove_triggers_recorder\(this\);cache_=0;\}else\{throw",
+                                                        r"std::set<std::string>result;result\.swap\(triggers_\);returnresult;$"])
+    body = function_body(src, r"void\s+cache_interface::add_triggers_recorder\s*\(")
+    expect_in_order("add_triggers_recorder", body, [r"^recorders_\.insert\(tr\);$"])
+    body = function_body(src, r"void\s+cache_interface::remove_triggers_recorder\s*\(")
+    expect_in_order("remove_triggers_recorder", body, [r"^recorders_\.erase\(tr\);$"])
+    body = function_body(src, r"bool\s+cache_interface::fetch\s*\(")
+    expect_in_order("cache_interface::fetch", body, [
+        r"^if\(nocache\(\)\)returnfalse;set<string>new_trig;",
+        r"if\(cache_module_->fetch\(key,result,\(notriggers\?0:&new_trig\)\)\)\{",
+        r"if\(!notriggers\)\{.*?for\(p=new_trig\.begin\(\);p!=new_trig\.end\(\);\+\+p\)add_trigger\(\*p\);\}",
+        r"returntrue;\}returnfalse;$"])
+    body = function_body(src, r"void\s+cache_interface::store\s*\(")
+    expect_in_order("cache_interface::store", body, [
+        r"^if\(nocache\(\)\)return;if\(!notriggers\)\{",
+        r"for\(p=triggers\.begin\(\);p!=triggers\.end\(\);\+\+p\)add_trigger\(\*p\);add_trigger\(key\);\}",
+        r"cache_module_->store\(key,data,triggers,deadtime\(timeout\)\);$"])
+    body = function_body(src, r"void\s+cache_interface::store_page\s*\(")
+    expect_in_order("cache_interface::store_page", body, [
+        r"^if\(nocache\(\)\)return;if\(!context_\)return;context_->response\(\)\.finalize\(\);",
+        r"std::stringr_key=\(page_compression_used_\?\"_Z:\":\"_U:\"\)\+key;",
+        r"add_trigger\(key\);",
+        r"cache_module_->store\(r_key,context_->response\(\)\.copied_data\(\),triggers_,deadtime\(timeout\)\);$"])
+    body = function_body(src, r"bool\s+cache_interface::fetch_page\s*\(")
+    expect_in_order("cache_interface::fetch_page", body, [
+        r"^if\(nocache\(\)\)returnfalse;if\(!context_\)returnfalse;boolgzip=context_->response\(\)\.need_gzip\(\);page_compression_used_=gzip;",
+        r"std::stringr_key=\(gzip\?\"_Z:\":\"_U:\"\)\+key;",
+        r"if\(cache_module_->fetch\(r_key,tmp,0\)\)\{",
+        r"returntrue;\}else\{context_->response\(\)\.copy_to_cache\(\);returnfalse;\}$"])
+    mz = re.search(r"\(\s*gzip\s*\?\s*\"((?:\\.|[^\"\\])*)\"\s*:\s*\"((?:\\.|[^\"\\])*)\"\s*\)\s*\+\s*key", src)
+    if not mz:
+        raise Untranslatable("fetch_page key prefixes")
+    w("/-- key prefixes of cached pages (gzip / plain) -/")
+    w(f"def pagePrefixGzip : List UInt8 := {lean_bytes(c_string_bytes(mz.group(1)))}")
+    w(f"def pagePrefixPlain : List UInt8 := {lean_bytes(c_string_bytes(mz.group(2)))}")
+    body = function_body(src, r"void\s+cache_interface::reset\s*\(")
+    expect_in_order("cache_interface::reset", body, [r"^triggers_\.clear\(\);$"])
+    body = function_body(src, r"void\s+cache_interface::rise\s*\(")
+    expect_in_order("cache_interface::rise", body, [r"^if\(nocache\(\)\)return;cache_module_->rise\(t\);$"])
+
+
 def main(repo, lean):
     src = strip_c_comments(open(os.path.join(repo, "src/cache_storage.cpp")).read())
     o = []
@@ -182,6 +243,7 @@ def main(repo, lean):
     # constructor: counters start at zero
     if not re.search(r"mem_cache\(unsigned pages=0\)\s*:\s*lru_mutex\(new mutex_type\(\)\),\s*access_lock\(new shared_mutex_type\(\)\),\s*limit\(pages\),\s*size\(0\),\s*refs\(0\),\s*generation\(0\)\s*\{\s*nl_clear\(\);", src):
         raise Untranslatable("mem_cache constructor")
+    iface(repo, w)
     w("\nend Cppcms.C07.Gen")
     path = os.path.join(lean, "Cppcms", "C07", "Gen.lean")
     write_if_changed(path, "\n".join(o) + "\n")
